@@ -47,6 +47,7 @@ class Ctx:
         self.alg = {}         # algebraic constants already introduced
         self.stats = stats
         self.fresh = itertools.count()
+        self.sin_exact = 0           # >0: link sin(t) to exact values for t = pi*p/q <= sin_exact*pi (C07/C08 oracles)
         self.exp_underflow = False   # IEEE fact exp(t)=0 for t<=-746 (switched on by C03 harnesses)
         self.feas_timeout = 20000
 
@@ -471,8 +472,25 @@ def _ax_log(c, a, v, lst):
         c.axioms.append(z3.Implies(t > bt, v.n > w.n))
 
 
+SIN_EXACT_DENS = (2, 4, 6, 8)
+
+
 def _ax_sin(c, a, v, lst):
     t = a.term()
+    if getattr(c, 'sin_exact', 0):
+        # link the Ackermannised sin to exact algebraic values at rational multiples of pi:
+        # t == PI*p/q  =>  sin(t) == sinpi(p,q)   for q in SIN_EXACT_DENS, 0 <= p/q <= sin_exact
+        pi = pi_sym().n
+        seen = set()
+        mult, dens = (c.sin_exact, SIN_EXACT_DENS) if isinstance(c.sin_exact, int) else (c.sin_exact[0], tuple(c.sin_exact[1]))
+        for q in dens:
+            for p_ in range(0, int(mult) * q + 1):
+                fr = Fraction(p_, q)
+                if fr in seen:
+                    continue
+                seen.add(fr)
+                ex = sinpi(fr.numerator, fr.denominator)
+                c.axioms.append(z3.Implies(a.n * fr.denominator == pi * fr.numerator * a.d, v.n * ex.d == ex.n))
     c.axioms.append(v.n <= 1)
     c.axioms.append(v.n >= -1)
     c.axioms.append(z3.Implies(t == 0, v.n == 0))
@@ -536,7 +554,7 @@ def pi_sym():
 
 
 CONST_VALUES = {'PI': math.pi, 'SQ2': math.sqrt(2), 'SQ3': math.sqrt(3), 'SQ5': math.sqrt(5),
-                'S8': math.sin(math.pi / 8), 'C8': math.cos(math.pi / 8)}
+                'S8': math.sin(math.pi / 8), 'C8': math.cos(math.pi / 8), 'S5': math.sin(math.pi / 5), 'S25': math.sin(2 * math.pi / 5)}
 
 
 def sinpi(num, den):
@@ -574,6 +592,19 @@ def sinpi(num, den):
         # sin(pi/10) = (sqrt5-1)/4 ; sin(3pi/10) = (sqrt5+1)/4
         v = algebraic('SQ5', lambda v: v * v - 5, 2, 3)
         return SR((v - 1 if fr == Fraction(1, 10) else v + 1) * sign, z3.RealVal(4))
+    if fr in (Fraction(1, 5), Fraction(2, 5)):
+        # sin(pi/5) = sqrt(10-2 sqrt5)/4 ; sin(2pi/5) = sqrt(10+2 sqrt5)/4
+        q5 = algebraic('SQ5', lambda v: v * v - 5, 2, 3)
+        if fr == Fraction(1, 5):
+            v = algebraic('S5', lambda v: 16 * v * v - (10 - 2 * q5), 0, 1)
+        else:
+            v = algebraic('S25', lambda v: 16 * v * v - (10 + 2 * q5), 0, 1)
+        return SR(v * sign)
+    if fr in (Fraction(1, 12), Fraction(5, 12)):
+        # sin(pi/12) = sqrt2 (sqrt3-1)/4 ; sin(5pi/12) = sqrt2 (sqrt3+1)/4
+        q2 = algebraic('SQ2', lambda v: v * v - 2, 1, 2)
+        q3 = algebraic('SQ3', lambda v: v * v - 3, 1, 2)
+        return SR(q2 * (q3 - 1 if fr == Fraction(1, 12) else q3 + 1) * sign, z3.RealVal(4))
     raise NotEncodable('sin(pi*%s) has no exact encoding here' % fr)
 
 
